@@ -54,22 +54,26 @@ type TableBatch struct {
 
 // Op is one abstract operation.
 type Op struct {
-	Kind             string            `json:"kind"`
-	Table            string            `json:"table,omitempty"`
-	Index            string            `json:"index,omitempty"`
-	Item             Item              `json:"item,omitempty"`
-	Key              Item              `json:"key,omitempty"`
-	Cond             string            `json:"cond,omitempty"`
-	Update           string            `json:"update,omitempty"`
-	KeyCond          string            `json:"keyCond,omitempty"`
-	Filter           string            `json:"filter,omitempty"`
-	Projection       string            `json:"projection,omitempty"`
-	Names            map[string]string `json:"names,omitempty"`
-	Values           map[string]AV     `json:"values,omitempty"`
-	Limit            int               `json:"limit,omitempty"`
-	StartKey         Item              `json:"startKey,omitempty"`
-	Backward         bool              `json:"backward,omitempty"`
-	ReturnOld        bool              `json:"returnOld,omitempty"`        // DeleteItem ReturnValues=ALL_OLD
+	Kind       string            `json:"kind"`
+	Table      string            `json:"table,omitempty"`
+	Index      string            `json:"index,omitempty"`
+	Item       Item              `json:"item,omitempty"`
+	Key        Item              `json:"key,omitempty"`
+	Cond       string            `json:"cond,omitempty"`
+	Update     string            `json:"update,omitempty"`
+	KeyCond    string            `json:"keyCond,omitempty"`
+	Filter     string            `json:"filter,omitempty"`
+	Projection string            `json:"projection,omitempty"`
+	Names      map[string]string `json:"names,omitempty"`
+	Values     map[string]AV     `json:"values,omitempty"`
+	Limit      int               `json:"limit,omitempty"`
+	StartKey   Item              `json:"startKey,omitempty"`
+	Backward   bool              `json:"backward,omitempty"`
+	ReturnOld  bool              `json:"returnOld,omitempty"` // DeleteItem ReturnValues=ALL_OLD
+	// ReturnValues: the raw ReturnValues parameter of Put / Update / Delete (""
+	// = not sent). Only Delete ALL_OLD and the item UpdateItem always returns are
+	// implemented by the library; for other values the response is not compared.
+	ReturnValues     string            `json:"returnValues,omitempty"`
 	ReturnOnCondFail bool              `json:"returnOnCondFail,omitempty"` // v2 UpdateItem only
 	Batch            []TableBatch      `json:"batch,omitempty"`
 	Schema           *Schema           `json:"schema,omitempty"`
@@ -150,7 +154,7 @@ type Result struct {
 	OrderDesc bool   `json:"orderDesc,omitempty"`
 
 	Unprocessed     []TableBatch `json:"unprocessed,omitempty"`
-	Metrics string `json:"metrics,omitempty"` // BatchWrite: canonical rendering of the returned ItemCollectionMetrics
+	Metrics         string       `json:"metrics,omitempty"`   // BatchWrite: canonical rendering of the returned ItemCollectionMetrics
 	Responses       []TableBatch `json:"responses,omitempty"` // Keys holds returned items
 	UnprocessedKeys []TableBatch `json:"unprocessedKeys,omitempty"`
 	Desc            *Desc        `json:"desc,omitempty"`
@@ -657,6 +661,16 @@ func (db *DB) Apply(op Op) Result {
 	t, ok := db.Tables[op.Table]
 	if !ok {
 		return errRes(ErrNotFound, "no such table")
+	}
+	if op.ReturnValues != "" {
+		valid := map[string]bool{"NONE": true, "ALL_OLD": true}
+		if op.Kind == "Update" {
+			valid["UPDATED_OLD"], valid["ALL_NEW"], valid["UPDATED_NEW"] = true, true, true
+		}
+		if (op.Kind == "Put" || op.Kind == "Update" || op.Kind == "Delete") && !valid[op.ReturnValues] {
+			// DynamoDB rejects the value for this operation; no listed property demands it
+			return Result{Spec: true, WeakWhy: "ReturnValues " + op.ReturnValues + " is not valid for " + op.Kind}
+		}
 	}
 	switch op.Kind {
 	case "Put":
